@@ -1,7 +1,11 @@
 //! Property-based verification harness for saveoursecrets/sdk.
 pub mod framework;
+pub mod secrets;
 pub mod engine_acct;
 pub mod engine_evlog;
+pub mod engine_sync;
+pub mod prop_c01;
+pub mod prop_c02;
 pub mod prop_c06;
 pub mod prop_c07;
 pub mod prop_c08;
@@ -11,7 +15,7 @@ pub mod prop_c10;
 use framework::PropertyDef;
 
 pub fn registry() -> Vec<PropertyDef> {
-    vec![prop_c06::def(), prop_c07::def(), prop_c08::def(), prop_c10::def()]
+    vec![prop_c01::def(), prop_c02::def(), prop_c06::def(), prop_c07::def(), prop_c08::def(), prop_c10::def()]
 }
 
 /// Internal process sub-modes used by engines (crash children, decoder workers).
